@@ -2122,7 +2122,11 @@ func (k *Kernel) handleReplayedHeader(
 			// That is fine, as noted in the documentation for the RoundStore.
 		}
 
-		if err := k.rStore.SaveRoundReplayedHeader(ctx, header); err != nil {
+		// The round store refuses a replayed header whose hash it already holds
+		// as a proposed header of this height (we saw the proposal in an earlier round):
+		// then the header is already persisted and there is nothing left to save.
+		if err := k.rStore.SaveRoundReplayedHeader(ctx, header); err != nil &&
+			!errors.As(err, new(tmstore.OverwriteError)) {
 			return tmelink.ReplayedHeaderInternalError{
 				Err: fmt.Errorf(
 					"failed to save replayed header to round store: %w",
